@@ -394,165 +394,327 @@ func c08TypeSize(e ast.Expr) (int, string, error) {
 	return 0, "", fmt.Errorf("unsupported parameter type %T", e)
 }
 
-// c08GoBody translates a method body into the atomic-op IR; every statement must be one of the
-// known shapes and the only location touched must be &recv.state.
-func c08GoBody(fd *ast.FuncDecl, atomicName string, info *types.Info) ([]string, error) {
-	if fd.Recv == nil || len(fd.Recv.List) != 1 || len(fd.Recv.List[0].Names) != 1 {
-		return nil, fmt.Errorf("%s: no named receiver", fd.Name.Name)
-	}
-	recv := fd.Recv.List[0].Names[0].Name
-	// an integer constant expression (a literal, a named package-level constant, a conversion or
-	// arithmetic over them): resolved to its value by go/types, so `lockHeld` and `1` give the
-	// same fact
-	lit := func(e ast.Expr) (uint64, error) {
-		if tv, ok := info.Types[e]; ok && tv.Value != nil && tv.Value.Kind() == constant.Int {
-			if v, exact := constant.Uint64Val(tv.Value); exact && v < 1<<32 {
-				return v, nil
-			}
+// c08Bind: what a name stands for while a method body (and the package-local helpers it calls,
+// which are inlined) is translated: the lock itself (the *Spinlock receiver), the address of its
+// state word, or an integer constant.
+type c08Bind struct {
+	kind string // "lock", "state", "const"
+	val  uint64
+}
+
+type c08GoTr struct {
+	method     string // the exported method being translated (for messages)
+	atomicName string
+	info       *types.Info
+	decls      map[types.Object]*ast.FuncDecl // package-local functions and Spinlock methods with a body
+	ops        []string
+	tmpLocal   types.Object // the local that holds the last atomic read, if any
+	active     map[*ast.FuncDecl]bool
+}
+
+func (t *c08GoTr) errf(format string, args ...interface{}) error {
+	return fmt.Errorf("%s: "+format, append([]interface{}{t.method}, args...)...)
+}
+
+// constant: a literal, a named constant, a conversion/arithmetic over them (go/types), or a
+// parameter bound to one
+func (t *c08GoTr) constant(env map[types.Object]c08Bind, e ast.Expr) (uint64, bool) {
+	if tv, ok := t.info.Types[e]; ok && tv.Value != nil && tv.Value.Kind() == constant.Int {
+		if v, exact := constant.Uint64Val(tv.Value); exact && v < 1<<32 {
+			return v, true
 		}
-		return 0, fmt.Errorf("%s: expected a 32-bit integer constant, found %T", fd.Name.Name, e)
 	}
-	// a local bound once by `x := <atomic read>` and used once, in the return that follows, stands
-	// for the value of that read (`tmp` of the IR)
-	var tmpLocal types.Object
+	if id, ok := e.(*ast.Ident); ok {
+		if b, ok := env[t.info.Uses[id]]; ok && b.kind == "const" {
+			return b.val, true
+		}
+	}
+	if p, ok := e.(*ast.ParenExpr); ok {
+		return t.constant(env, p.X)
+	}
+	return 0, false
+}
+
+func (t *c08GoTr) isLock(env map[types.Object]c08Bind, e ast.Expr) bool {
+	id, ok := e.(*ast.Ident)
+	return ok && env[t.info.Uses[id]].kind == "lock"
+}
+
+// isState: `&l.state` for a name bound to the lock, or a parameter bound to that address
+func (t *c08GoTr) isState(env map[types.Object]c08Bind, e ast.Expr) bool {
+	switch x := e.(type) {
+	case *ast.ParenExpr:
+		return t.isState(env, x.X)
+	case *ast.Ident:
+		return env[t.info.Uses[x]].kind == "state"
+	case *ast.UnaryExpr:
+		if s, ok := x.X.(*ast.SelectorExpr); ok && x.Op == token.AND && s.Sel.Name == "state" {
+			return t.isLock(env, s.X)
+		}
+	}
+	return false
+}
+
+// callee: the package-local function or Spinlock method (with a body) that `c` calls, with the
+// bindings of its parameters; nil if `c` is not such a call
+func (t *c08GoTr) callee(env map[types.Object]c08Bind, c *ast.CallExpr) (*ast.FuncDecl, map[types.Object]c08Bind, error) {
+	var obj types.Object
+	cenv := map[types.Object]c08Bind{}
+	switch f := c.Fun.(type) {
+	case *ast.Ident:
+		obj = t.info.Uses[f]
+	case *ast.SelectorExpr:
+		if t.isLock(env, f.X) {
+			obj = t.info.Uses[f.Sel]
+		}
+	}
+	fd := t.decls[obj]
+	if fd == nil {
+		return nil, nil, nil
+	}
+	if fd.Recv != nil {
+		if len(fd.Recv.List) != 1 || len(fd.Recv.List[0].Names) != 1 {
+			return nil, nil, t.errf("helper method %s has no named receiver", fd.Name.Name)
+		}
+		cenv[t.info.Defs[fd.Recv.List[0].Names[0]]] = c08Bind{kind: "lock"}
+	}
+	var params []*ast.Ident
+	for _, fl := range fd.Type.Params.List {
+		params = append(params, fl.Names...)
+	}
+	if len(params) != len(c.Args) || c.Ellipsis.IsValid() {
+		return nil, nil, t.errf("call of helper %s: parameters cannot be bound", fd.Name.Name)
+	}
+	for i, a := range c.Args {
+		switch v, isConst := t.constant(env, a); {
+		case t.isState(env, a):
+			cenv[t.info.Defs[params[i]]] = c08Bind{kind: "state"}
+		case t.isLock(env, a):
+			cenv[t.info.Defs[params[i]]] = c08Bind{kind: "lock"}
+		case isConst:
+			cenv[t.info.Defs[params[i]]] = c08Bind{kind: "const", val: v}
+		default:
+			return nil, nil, t.errf("call of helper %s: argument %d is neither the lock, &lock.state nor an integer constant", fd.Name.Name, i)
+		}
+	}
+	if t.active[fd] {
+		return nil, nil, t.errf("helper %s is recursive", fd.Name.Name)
+	}
+	return fd, cenv, nil
+}
+
+// call translates a call used as a statement or as a value.  Returns whether it leaves a value in
+// `tmp` (an atomic read).  Package-local helpers are inlined; a helper used as a value must be
+// `return <value-producing call>` after any number of statements.
+func (t *c08GoTr) call(env map[types.Object]c08Bind, e ast.Expr, mode string) (produces bool, err error) {
+	if p, ok := e.(*ast.ParenExpr); ok {
+		return t.call(env, p.X, mode)
+	}
+	c, ok := e.(*ast.CallExpr)
+	if !ok {
+		return false, t.errf("expected a call, found %T", e)
+	}
+	if fd, cenv, err := t.callee(env, c); err != nil {
+		return false, err
+	} else if fd != nil {
+		return t.inline(fd, cenv, mode)
+	}
+	name := ""
+	switch f := c.Fun.(type) {
+	case *ast.Ident:
+		name = f.Name
+	case *ast.SelectorExpr:
+		if id, ok := f.X.(*ast.Ident); ok && id.Name == t.atomicName {
+			name = "atomic." + f.Sel.Name
+		}
+	}
+	if len(c.Args) == 0 || !t.isState(env, c.Args[0]) {
+		return false, t.errf("call %s must take the address of the lock's state word first", name)
+	}
+	arg := func() (uint64, error) {
+		if v, ok := t.constant(env, c.Args[1]); ok {
+			return v, nil
+		}
+		return 0, t.errf("call %s: expected a 32-bit integer constant, found %T", name, c.Args[1])
+	}
+	t.tmpLocal = nil
+	switch {
+	case name == "atomic.SwapUint32" && len(c.Args) == 2:
+		v, err := arg()
+		t.ops = append(t.ops, fmt.Sprintf(".swap %d", v))
+		return true, err
+	case name == "atomic.StoreUint32" && len(c.Args) == 2:
+		v, err := arg()
+		t.ops = append(t.ops, fmt.Sprintf(".store %d", v))
+		return false, err
+	case name == "atomic.LoadUint32" && len(c.Args) == 1:
+		t.ops = append(t.ops, ".load")
+		return true, nil
+	case name == "archAcquireSpinlock" && len(c.Args) == 2:
+		v, err := arg()
+		t.ops = append(t.ops, fmt.Sprintf(".arch %d", v))
+		return false, err
+	}
+	if id, isId := c.Fun.(*ast.Ident); isId {
+		return false, t.errf("calls routine %s, which is not modelled (the model knows atomic.SwapUint32/StoreUint32/"+
+			"LoadUint32, archAcquireSpinlock and package-local helpers with a body)", id.Name)
+	}
+	return false, t.errf("unknown call %q", name)
+}
+
+// inline translates the body of `fd`.  mode "method": returns become `.ret`/`.retEq`/`.retNe`;
+// "stmt": a helper called as a statement (its result, if any, is dropped; `return` only last);
+// "value": a helper used as a value — its last statement is `return <value-producing call>`;
+// "tail": a helper whose result is returned by the caller — translated like "method".
+func (t *c08GoTr) inline(fd *ast.FuncDecl, env map[types.Object]c08Bind, mode string) (produces bool, err error) {
+	t.active[fd] = true
+	defer delete(t.active, fd)
 	uses := func(obj types.Object) int {
 		n := 0
-		for _, o := range info.Uses {
+		for _, o := range t.info.Uses {
 			if o == obj {
 				n++
 			}
 		}
 		return n
 	}
-	isState := func(e ast.Expr) bool {
-		u, ok := e.(*ast.UnaryExpr)
-		if !ok || u.Op != token.AND {
-			return false
-		}
-		s, ok := u.X.(*ast.SelectorExpr)
-		if !ok || s.Sel.Name != "state" {
-			return false
-		}
-		id, ok := s.X.(*ast.Ident)
-		return ok && id.Name == recv
-	}
-	// call -> op producing (or not) tmp
-	call := func(e ast.Expr) (string, bool, error) {
-		c, ok := e.(*ast.CallExpr)
-		if !ok {
-			return "", false, fmt.Errorf("%s: expected a call, found %T", fd.Name.Name, e)
-		}
-		name := ""
-		switch f := c.Fun.(type) {
-		case *ast.Ident:
-			name = f.Name
-		case *ast.SelectorExpr:
-			if id, ok := f.X.(*ast.Ident); ok && id.Name == atomicName {
-				name = "atomic." + f.Sel.Name
-			}
-		}
-		if len(c.Args) == 0 || !isState(c.Args[0]) {
-			return "", false, fmt.Errorf("%s: call %s must take &%s.state first", fd.Name.Name, name, recv)
-		}
-		switch {
-		case name == "atomic.SwapUint32" && len(c.Args) == 2:
-			v, err := lit(c.Args[1])
-			return fmt.Sprintf(".swap %d", v), true, err
-		case name == "atomic.StoreUint32" && len(c.Args) == 2:
-			v, err := lit(c.Args[1])
-			return fmt.Sprintf(".store %d", v), false, err
-		case name == "atomic.LoadUint32" && len(c.Args) == 1:
-			return ".load", true, nil
-		case name == "archAcquireSpinlock" && len(c.Args) == 2:
-			v, err := lit(c.Args[1])
-			return fmt.Sprintf(".arch %d", v), false, err
-		}
-		return "", false, fmt.Errorf("%s: unknown call %q", fd.Name.Name, name)
-	}
-	var ops []string
 	returned := false
-	for _, st := range fd.Body.List {
+	for i, st := range fd.Body.List {
 		if returned {
-			return nil, fmt.Errorf("%s: statement after return", fd.Name.Name)
+			return false, t.errf("statement after return in %s", fd.Name.Name)
 		}
+		last := i == len(fd.Body.List)-1
 		switch s := st.(type) {
 		case *ast.ExprStmt:
-			op, _, err := call(s.X)
-			if err != nil {
-				return nil, err
+			if _, err := t.call(env, s.X, "stmt"); err != nil {
+				return false, err
 			}
-			ops = append(ops, op)
-			tmpLocal = nil
+			t.tmpLocal = nil
 		case *ast.AssignStmt:
 			var name *ast.Ident
 			if len(s.Lhs) == 1 {
 				name, _ = s.Lhs[0].(*ast.Ident)
 			}
 			if name == nil || s.Tok != token.DEFINE || len(s.Rhs) != 1 {
-				return nil, fmt.Errorf("%s: unsupported assignment", fd.Name.Name)
+				return false, t.errf("unsupported assignment in %s", fd.Name.Name)
 			}
-			op, produces, err := call(s.Rhs[0])
+			p, err := t.call(env, s.Rhs[0], "value")
 			if err != nil {
-				return nil, err
+				return false, err
 			}
-			obj := info.Defs[name]
-			if !produces || obj == nil || uses(obj) != 1 {
-				return nil, fmt.Errorf("%s: local %s must hold the result of one atomic read and be used exactly once", fd.Name.Name, name.Name)
+			obj := t.info.Defs[name]
+			if !p || obj == nil || uses(obj) != 1 {
+				return false, t.errf("local %s must hold the result of one atomic read and be used exactly once", name.Name)
 			}
-			ops = append(ops, op)
-			tmpLocal = obj
+			t.tmpLocal = obj
 		case *ast.ReturnStmt:
 			returned = true
+			if !last {
+				return false, t.errf("return before the end of %s", fd.Name.Name)
+			}
 			if len(s.Results) == 0 {
-				ops = append(ops, ".ret")
+				if mode == "method" || mode == "tail" {
+					t.ops = append(t.ops, ".ret")
+				}
 				continue
 			}
-			b, ok := s.Results[0].(*ast.BinaryExpr)
-			if len(s.Results) != 1 || !ok || (b.Op != token.EQL && b.Op != token.NEQ) {
-				if c, isCall := s.Results[0].(*ast.CallExpr); isCall && len(s.Results) == 1 {
+			if len(s.Results) != 1 {
+				return false, t.errf("unsupported return in %s", fd.Name.Name)
+			}
+			r := s.Results[0]
+			for {
+				p, ok := r.(*ast.ParenExpr)
+				if !ok {
+					break
+				}
+				r = p.X
+			}
+			if mode == "value" {
+				// the value of the helper is the value of this expression: an atomic read
+				if id, isId := r.(*ast.Ident); isId && t.tmpLocal != nil && t.info.Uses[id] == t.tmpLocal {
+					return true, nil
+				}
+				p, err := t.call(env, r, "value")
+				if err == nil && !p {
+					err = t.errf("helper %s returns something that is not an atomic read", fd.Name.Name)
+				}
+				return p, err
+			}
+			if mode == "stmt" {
+				return false, t.errf("result of helper %s is dropped", fd.Name.Name)
+			}
+			b, isCmp := r.(*ast.BinaryExpr)
+			if !isCmp || (b.Op != token.EQL && b.Op != token.NEQ) {
+				if c, isCall := r.(*ast.CallExpr); isCall {
+					// `return helper(...)`: the helper's own return is ours
+					if cfd, cenv, err := t.callee(env, c); err != nil {
+						return false, err
+					} else if cfd != nil {
+						return t.inline(cfd, cenv, "tail")
+					}
 					if id, isId := c.Fun.(*ast.Ident); isId {
-						return nil, fmt.Errorf("%s now returns the result of routine %s, which is not modelled (the model knows "+
-							"atomic.SwapUint32/StoreUint32/LoadUint32 and archAcquireSpinlock)", fd.Name.Name, id.Name)
+						return false, t.errf("now returns the result of routine %s, which is not modelled (the model knows "+
+							"atomic.SwapUint32/StoreUint32/LoadUint32, archAcquireSpinlock and package-local helpers with a body)", id.Name)
 					}
 				}
-				return nil, fmt.Errorf("%s: unsupported return expression", fd.Name.Name)
+				return false, t.errf("unsupported return expression in %s", fd.Name.Name)
 			}
 			x, y := b.X, b.Y
-			if _, err := lit(x); err == nil { // constant on the left: == and != are symmetric
+			if _, isConst := t.constant(env, x); isConst { // == and != are symmetric
 				x, y = y, x
 			}
-			v, err := lit(y)
-			if err != nil {
-				return nil, err
+			v, isConst := t.constant(env, y)
+			if !isConst {
+				return false, t.errf("comparison in %s is not against a 32-bit integer constant", fd.Name.Name)
 			}
 			if id, isId := x.(*ast.Ident); isId {
-				// the local that holds the last atomic read
-				if tmpLocal == nil || info.Uses[id] != tmpLocal {
-					return nil, fmt.Errorf("%s: %s is not the result of the immediately preceding atomic read", fd.Name.Name, id.Name)
+				if t.tmpLocal == nil || t.info.Uses[id] != t.tmpLocal {
+					return false, t.errf("%s is not the result of the immediately preceding atomic read", id.Name)
 				}
 			} else {
-				op, produces, err := call(x)
+				p, err := t.call(env, x, "value")
 				if err != nil {
-					return nil, err
+					return false, err
 				}
-				if !produces {
-					return nil, fmt.Errorf("%s: compared call has no result", fd.Name.Name)
+				if !p {
+					return false, t.errf("compared call in %s has no result", fd.Name.Name)
 				}
-				ops = append(ops, op)
 			}
 			if b.Op == token.EQL {
-				ops = append(ops, fmt.Sprintf(".retEq %d", v))
+				t.ops = append(t.ops, fmt.Sprintf(".retEq %d", v))
 			} else {
-				ops = append(ops, fmt.Sprintf(".retNe %d", v))
+				t.ops = append(t.ops, fmt.Sprintf(".retNe %d", v))
 			}
 		default:
-			return nil, fmt.Errorf("%s: unsupported statement %T", fd.Name.Name, st)
+			return false, t.errf("unsupported statement %T in %s", st, fd.Name.Name)
 		}
 	}
 	if !returned {
-		ops = append(ops, ".ret")
+		if mode == "value" {
+			return false, t.errf("helper %s does not return a value", fd.Name.Name)
+		}
+		if mode == "method" || mode == "tail" {
+			t.ops = append(t.ops, ".ret")
+		}
 	}
-	return ops, nil
+	return false, nil
+}
+
+// c08GoBody translates a method body into the atomic-op IR; every statement must be one of the
+// known shapes and the only location touched must be the receiver's state word.  Calls of
+// package-local functions / Spinlock methods with a body are inlined (parameters bound to the lock,
+// the address of its state word, or integer constants), so a refactoring into helpers regenerates
+// the same facts.
+func c08GoBody(fd *ast.FuncDecl, atomicName string, info *types.Info, decls map[types.Object]*ast.FuncDecl) ([]string, error) {
+	if fd.Recv == nil || len(fd.Recv.List) != 1 || len(fd.Recv.List[0].Names) != 1 {
+		return nil, fmt.Errorf("%s: no named receiver", fd.Name.Name)
+	}
+	t := &c08GoTr{method: fd.Name.Name, atomicName: atomicName, info: info, decls: decls, active: map[*ast.FuncDecl]bool{}}
+	env := map[types.Object]c08Bind{info.Defs[fd.Recv.List[0].Names[0]]: {kind: "lock"}}
+	if _, err := t.inline(fd, env, "method"); err != nil {
+		return nil, err
+	}
+	return t.ops, nil
 }
 
 func c08Facts() (string, error) {
@@ -597,6 +759,15 @@ func c08Facts() (string, error) {
 	if _, err := tconf.Check("sync", fset, files, info); err != nil {
 		return "", fmt.Errorf("package sync does not type-check: %v", err)
 	}
+	// package-local functions and Spinlock methods with a body (candidates for inlining)
+	helperDecls := map[types.Object]*ast.FuncDecl{}
+	for _, f := range files {
+		for _, d := range f.Decls {
+			if fd, ok := d.(*ast.FuncDecl); ok && fd.Body != nil {
+				helperDecls[info.Defs[fd.Name]] = fd
+			}
+		}
+	}
 	bodies := map[string][]string{}
 	var params []c08Param
 	haveState, haveYield := false, false
@@ -609,7 +780,7 @@ func c08Facts() (string, error) {
 				if id, ok2 := st.X.(*ast.Ident); !ok || !ok2 || id.Name != "Spinlock" {
 					return "", fmt.Errorf("%s: receiver is not *Spinlock", d.Name.Name)
 				}
-				if bodies[d.Name.Name], err = c08GoBody(d, atomicName, info); err != nil {
+				if bodies[d.Name.Name], err = c08GoBody(d, atomicName, info, helperDecls); err != nil {
 					return "", err
 				}
 			case d.Body == nil && d.Name.Name != "archAcquireSpinlock":
